@@ -34,7 +34,7 @@ type c18Step struct {
 }
 
 var c18Ops = append(append([]string{}, allCtxOps...), "String", "Text", "Format", "Cmp", "CmpTotal", "Sign", "NumDigits", "Int64", "Float64", "Modf", "Decompose",
-	"MarshalText", "Value", "Size", "Coeff", "Set", "NegAbs", "ReduceDec")
+	"MarshalText", "Value", "Size", "Coeff", "Set", "NegAbs", "ReduceDec", "Parse", "ErrDecimal", "Condition")
 
 // c18Pool builds the shared operands of one round. The round number varies
 // the exponent gaps and digit counts so that every round touches table
@@ -180,6 +180,28 @@ func c18Exec(st *c18Step, ctxs []*apd.Context, pool []*apd.Decimal) string {
 		d.Neg(x)
 		e.Abs(x)
 		return meaningful(br.FromApd(&d)) + meaningful(br.FromApd(&e))
+	case op == "Parse":
+		// context-aware parsing through the shared Context
+		str := x.String()
+		if len(str) > 400 {
+			str = "1.25E+3"
+		}
+		got, res, err := ctx.NewFromString(str)
+		if got == nil {
+			return fmt.Sprint("nil ", err != nil)
+		}
+		return fmt.Sprintf("%s [%s] err=%v", meaningful(br.FromApd(got)), br.FlagNames(res), err != nil)
+	case op == "ErrDecimal":
+		ed := apd.MakeErrDecimal(ctx)
+		var e apd.Decimal
+		ed.Add(&d, x, y)
+		ed.Mul(&e, &d, x)
+		ed.Sub(&d, &e, y)
+		return fmt.Sprintf("%s [%s] err=%v", meaningful(br.FromApd(&d)), br.FlagNames(ed.Flags), ed.Err() != nil)
+	case op == "Condition":
+		c := apd.Condition(uint32(st.aux+9)) & br.AllFlags
+		_, err := c.GoError(ctx.Traps)
+		return c.String() + fmt.Sprint(err != nil, apd.BaseContext.Precision, ctx.WithPrecision(7).Precision)
 	case op == "ReduceDec":
 		_, n := d.Reduce(x)
 		return fmt.Sprint(meaningful(br.FromApd(&d)), n)
